@@ -11,7 +11,7 @@ CHECKS = {
          "every schedule / select choice of 1-2 RPC scenarios with 0..2 (thorough 0..3) messages per direction on both transports, with a prefix monitor at every receive return; all message shapes of a stated pool under the default schedule",
          "sequentially consistent interleavings at sync-operation granularity; HTTP scenarios run over the memhttp model of net/http (bound to reality by native loopback conformance runs)", "6/C01"),
  "C02": (E1, "model_checking", "bounded-exhaustive enumeration of handler outcomes and of every truncation point of recorded replies against a reference status function validated against grpc-go (E2 part) + stateless DFS over all schedules and cancellation instants of error-at-position scripts (E1 part)",
-         "E2 part: every member of transport x kind x handler outcome (19 codes x 7 messages x 13 detail lists + plain/context/EOF/wrapped errors) x position x encodability, and every proper prefix of 19 recorded replies with clean and abrupt endings, through the real client and server; E1 part: success only if the handler returned nil and the response is complete, under every interleaving and cancellation placement",
+         "E2 part: every member of transport x kind x handler outcome (19 codes x 10 messages x 13 detail lists + plain/context/EOF/wrapped errors) x position x encodability, and every proper prefix of 19 recorded replies with clean and abrupt endings, through the real client and server; E1 part: success only if the handler returned nil and the response is complete, under every interleaving and cancellation placement",
          "HTTP exchange of the E2 part runs on a recorder / serialised http.Response; E1 part as C01", "6/C02"),
  "C03": (E1, "model_checking", "stateless DFS over all schedules of header/trailer orderings on the instrumented sources + exhaustive metadata-encoding sweep",
          "every schedule of every handler order of SetHeader/SendHeader/SendMsg/SetTrailer/return against every client order of Header/RecvMsg/Trailer, with and without a canceller; every metadata map of a stated grammar incl. all 256 byte values in -bin keys",
